@@ -4,6 +4,7 @@ import ast
 import sympy as sp
 
 from .. import callsites as CS
+from .. import cfg as C
 from .. import credit as CR
 from .. import effects as E
 from .. import summary as SM
@@ -140,7 +141,7 @@ def check_weights(ctx):
     q = "VROOM.pull"
     ctx.fn(q)
     body = strip_doc(pull.body)
-    loops = [s for s in body if isinstance(s, ast.For)]
+    loops = [s for s in body if isinstance(s, ast.For) and any(isinstance(x, ast.Call) and norm_src(x.func) == "self.prob.append" for x in ast.walk(s))]
     ok = False
     why = "weight loop not recognised"
     if len(loops) == 1 and isinstance(loops[0].target, ast.Name) and norm_src(loops[0].iter) == "range(1, self.search_depth + 1)":
@@ -218,21 +219,111 @@ def check_point(ctx):
         okd = not entry and len(ds) == 1 and ds[0][1][0] == "assign" and drawn_cell_expr(fc, ds[0][1][1], ds[0][0])
         ctx.ob("R13-POINT", okd, c.file, q, "the chain starts at the drawn cell node_list[h][l] itself, (h, l) = index[sample]",
                "%s" % [norm_src(r[1]) if r[0] == "assign" else r[0] for n, r in ds], at.line)
-        hd, he = fc.reaching("h", at)
-        okh = not he and len(hd) == 1 and (hd[0][1][0] == "assign" and norm_src(hd[0][1][1]) == "idx[0]" or
-                                           hd[0][1][0] == "unpack" and norm_src(hd[0][1][1]).startswith("index[") and norm_src(hd[0][1][2].elts[0]) == "h")
-        ctx.ob("R13-POINT", okh, c.file, q, "the depth counter starts at the drawn cell's depth", "%s" % [norm_src(r[1]) if r[0] == "assign" else r[0] for n, r in hd],
-               at.line)
-    wl = [w for w in ast.walk(pull) if isinstance(w, ast.While)]
-    okw = len(wl) == 1 and norm_src(wl[0].test) == "h < self.h_max"
-    if okw:
-        W = wl[0]
-        steps = [norm_src(s) for s in W.body if not isinstance(s, ast.If)]
-        okw = steps in (["sign = np.random.randint(2)", "%s = %s.get_children()[sign]" % (cur, cur), "self.update_list.append(%s)" % cur, "h += 1"],)
-        ifs = [s for s in W.body if isinstance(s, ast.If)]
-        okw = okw and len(ifs) == 1 and norm_src(ifs[0].test) == "%s.get_children() is None" % cur and W.body[0] is ifs[0]
-    ctx.ob("R13-POINT", okw, c.file, q, "descent to the depth cap: one random child per level while h < h_max",
-           "recognised" if okw else "descent loop not recognised", pull.lineno)
+    ok, why = descent_loop(fc, pull, cur)
+    ctx.ob("R13-POINT", ok, c.file, q, "descent to the depth cap: one random child per level while h < h_max", why, pull.lineno)
+
+
+def descent_loop(fc, pull, cur):
+    """The loop that walks from the drawn cell down to depth h_max: a depth counter running from the drawn cell's depth up to
+    self.h_max (exclusive); per iteration exactly one unconditional step cur = cur.get_children()[k] with k drawn by
+    np.random.randint over the children, preceded by an expansion of cur when it has no children; no early exit."""
+    model = fc.model
+    loops = []
+    for l in ast.walk(pull):
+        if isinstance(l, (ast.For, ast.While)):
+            steps = [s for s in l.body if isinstance(s, ast.Assign) and len(s.targets) == 1 and norm_src(s.targets[0]) == cur and
+                     CS._is_child_step(s.value, cur)]
+            if steps:
+                loops.append((l, steps))
+    if len(loops) != 1:
+        return False, "expected one loop stepping '%s' to a child, found %d" % (cur, len(loops))
+    L, steps = loops[0]
+    if len(steps) != 1:
+        return False, "the loop steps '%s' %d times per iteration" % (cur, len(steps))
+    step = steps[0]
+    others = [x for b in L.body for x in ast.walk(b) if isinstance(x, (ast.Assign, ast.AugAssign)) and x is not step and
+              any(norm_src(t) == cur for t in (x.targets if isinstance(x, ast.Assign) else [x.target]))]
+    if others:
+        return False, "'%s' is also changed by %s inside the loop" % (cur, norm_src(others[0]))
+    if any(isinstance(x, (ast.Break, ast.Continue, ast.Return)) for b in L.body for x in ast.walk(b)):
+        return False, "the descent loop can be left or cut short (break/continue/return)"
+    # counter and bound
+    if isinstance(L, ast.For):
+        it = L.iter
+        if not (isinstance(L.target, ast.Name) and isinstance(it, ast.Call) and norm_src(it.func) == "range" and len(it.args) == 2 and not it.keywords):
+            return False, "descent loop is not a counting loop: for %s in %s" % (norm_src(L.target), norm_src(it))
+        v, start, bound = L.target.id, it.args[0], it.args[1]
+        if any(isinstance(x, ast.Name) and x.id == v and isinstance(x.ctx, ast.Store) for b in L.body for x in ast.walk(b)):
+            return False, "the depth counter is modified inside the loop"
+    else:
+        t = L.test
+        last = L.body[-1]
+        if not (isinstance(t, ast.Compare) and len(t.ops) == 1 and isinstance(t.ops[0], ast.Lt) and isinstance(t.left, ast.Name) and
+                isinstance(last, ast.AugAssign) and isinstance(last.op, ast.Add) and norm_src(last.target) == norm_src(t.left) and
+                norm_src(last.value) == "1"):
+            return False, "descent loop is not `while h < bound: ...; h += 1`: %s" % norm_src(t)
+        v, bound = t.left.id, t.comparators[0]
+        if sum(1 for b in L.body for x in ast.walk(b) if isinstance(x, ast.Name) and x.id == v and isinstance(x.ctx, ast.Store)) != 1:
+            return False, "the depth counter is modified more than once per iteration"
+        ds, entry = CS.FnCtx.reaching(fc, v, fc.cfg.node_of(L))
+        ds = [d for d in ds if not any(d[0].ast is x for b in L.body for x in ast.walk(b))]
+        if entry or len(ds) != 1 or ds[0][1][0] != "assign":
+            return False, "the depth counter has no single initialisation"
+        start = ds[0][1][1]
+    if norm_src(bound) != "self.h_max":
+        return False, "the descent stops at '%s', not at the depth cap self.h_max" % norm_src(bound)
+    # the counter starts at the drawn cell's depth: first component of the drawn (depth, position) pair
+    st = norm_src(start)
+    okh = False
+    if isinstance(start, ast.Subscript) and norm_src(start.slice) == "0" and isinstance(start.value, ast.Name):
+        ds, entry = fc.reaching(start.value.id, fc.cfg.node_of(L))
+        okh = not entry and len(ds) == 1 and ds[0][1][0] == "assign" and norm_src(ds[0][1][1]).startswith("index[")
+    elif isinstance(start, ast.Name):
+        ds, entry = fc.reaching(start.id, fc.cfg.node_of(L))
+        ds = [d for d in ds if not any(d[0].ast is x for b in L.body for x in ast.walk(b))]
+        okh = not entry and len(ds) == 1 and ds[0][1][0] == "unpack" and norm_src(ds[0][1][1]).startswith("index[") and \
+            norm_src(ds[0][1][2].elts[0]) == start.id
+    if not okh:
+        return False, "the depth counter starts at '%s', which is not the depth component of the drawn index pair" % st
+    # the child index is a fresh uniform draw over the children
+    k = step.value.slice
+    kd = None
+    if isinstance(k, ast.Name):
+        ds, entry = fc.reaching(k.id, fc.cfg.node_of(step))
+        if not entry and len(ds) == 1 and ds[0][1][0] == "assign" and any(ds[0][0].ast is b for b in L.body):
+            kd = ds[0][1][1]
+    else:
+        kd = k
+    okk = isinstance(kd, ast.Call) and norm_src(kd.func) in ("np.random.randint", "numpy.random.randint") and len(kd.args) == 1 and not kd.keywords \
+        and norm_src(kd.args[0]) in ("2", "len(%s.get_children())" % cur)
+    if not okk:
+        return False, "the child index '%s' is not a fresh np.random.randint draw over the children" % (norm_src(kd) if kd is not None else norm_src(k))
+    # children exist when the step is taken: an earlier top-level `if cur has no children: make_children(cur, ..)`
+    idx = L.body.index(step)
+    ensured = False
+    for b in L.body[:idx]:
+        if not isinstance(b, ast.If):
+            continue
+        atoms = C.flatten_cond(b.test, True)
+        if len(atoms) != 1:
+            continue
+        e, pol = atoms[0]
+        e_src = norm_src(e)
+        none_branch = None
+        if e_src in ("%s.get_children() is None" % cur, "%s.children is None" % cur):
+            none_branch = b.body if pol else b.orelse
+        elif e_src in ("%s.get_children() is not None" % cur, "%s.children is not None" % cur):
+            none_branch = b.orelse if pol else b.body
+        elif e_src in ("%s.get_children()" % cur,):
+            none_branch = b.orelse if pol else b.body
+        if none_branch and any(isinstance(x, ast.Expr) and isinstance(x.value, ast.Call) and method_name(x.value) == "make_children" and
+                               norm_src(get_arg(x.value, 0, "parent")) == cur for x in none_branch):
+            ensured = True
+    if not ensured:
+        return False, "no expansion of '%s' precedes the step when it has no children" % cur
+    return True, "for depth in [drawn depth, h_max): expand if needed, step to a uniformly drawn child"
+
+
     # sample_uniform lies in the cell: C01 R01-INSIDE; descendants lie in the drawn cell: C02
 
 
